@@ -208,3 +208,9 @@ for _p, _t in (('C04', '; non-emptiness dominance for in-place rope growth'), ('
                ('C06', '; sibling agreement of name conditions'), ('C12', '; must-reset path analysis of the VLQ reader state'),
                ('C08', '; must-reset path analysis of the VLQ reader state')):
     CLAIMS[_p]['technique'] += _t
+CLAIMS['C17']['text'] += (' Round 9: LOOKUP-UNWRAP - inside the callbacks of a composite streamer the result of a table lookup (`get` on a '
+                          'LinearMap / HashMap / slice, keyed by an index a supplied map uses) is unwrapped only where the Option was given '
+                          'a value on the miss path (get-or-insert) or under the test of the announced-key sentinel of the companion table; '
+                          'the one site without either was defect F15 (fixed in /repo). Other unwrap / expect calls in the streaming cone '
+                          'are not decided.')
+CLAIMS['C17']['technique'] += '; dominance of table-lookup unwraps by fill / sentinel tests'
